@@ -1,5 +1,151 @@
-import Plonk.Model.Verifier
+/-
+  C04 — "A proof binds its statement: public inputs, circuit, label, version."
+
+  What is proved (model functions `VerifierM.verify`, `statementOps`, `verifierChallenges`,
+  `Domain.lagrangeAndPi`):
+
+  * `len_mismatch_rejected` — a public-input vector of the wrong length yields `.piLen`, never
+    `.ok`; `verify` is a total function into `{ok, piLen, reject}` (no panic in the model).
+  * `pi_changes_transcript`, `label_changes_transcript`, `circuit_changes_transcript` — any change
+    of a public input (value mod `r`, order, length), of the label, of `constraints`, of `vk.n` or
+    of a transcript-bound verifier-key commitment changes the operation list the challenges are
+    computed from (whatever else is changed at the same time).
+  * `version_matrix` — how the protocol version enters: V1 = (legacy transcript, legacy equation),
+    V2 = (legacy transcript, current equation), V3 = (V3 transcript, current equation); acceptance
+    depends on the version through these two flags only (`version_enters_through_two_flags`), and
+    the V3 transcript differs from the legacy one exactly by binding `s_sigma_4`.
+  * `pi_eval_is_barycentric`, `pi_eval_injective` — the `PI(z)` used in the equation is
+    `(zⁿ−1)/n · Σ piᵢ/(ω^{−idxᵢ}·z − 1)`, and changing exactly one public input changes it
+    (for `z` off the domain and off that input's root).
+
+  Not proved: "every other combination yields an error" as a statement about *acceptance* is a
+  soundness claim that rests on the transcript hash (random-oracle style) and on KZG binding; what
+  is machine-checked is that every such change alters the hashed operation list (and, for public
+  inputs, the value `PI(z)` for fixed challenges), and the exact error outcome for length mismatch.
+  Scalars are compared modulo `r` (non-canonical representatives are identified by `to_bytes`);
+  points must be decodable for point-level conclusions (byte-level statements need nothing).
+-/
+import Plonk.Proofs.VerifierAlgebra
+import Plonk.Proofs.TranscriptInj
+
 namespace Plonk.Props.C04
 open Plonk
-theorem placeholder_consts : Generated.V_MAX_DEGREE = 11 ∧ Generated.V_MAX_DEGREE_LEGACY = 7 := by decide
+
+/-- **wrong number of public inputs: error `piLen`, never acceptance** -/
+theorem len_mismatch_rejected (v : VerifierM) (x : Nat) (p : ProofM) (pis : List Nat) (ver : PVersion)
+    (h : pis.length ≠ v.piIndexes.length) :
+    v.verify x p pis ver = .piLen ∧ v.verify x p pis ver ≠ .ok := by
+  rw [len_mismatch v x p pis ver h]; exact ⟨rfl, by decide⟩
+
+example : ([1, 2] : List Nat).length ≠ ({ (default : VerifierM) with piIndexes := [0] }).piIndexes.length := by
+  decide
+
+/-- the outcome is always one of the three values (the model has no panic path) -/
+theorem outcome_total (v : VerifierM) (x : Nat) (p : ProofM) (pis : List Nat) (ver : PVersion) :
+    v.verify x p pis ver = .ok ∨ v.verify x p pis ver = .piLen ∨ v.verify x p pis ver = .reject := by
+  cases v.verify x p pis ver <;> simp
+
+/-- **changing the public inputs changes the transcript**: different residues, a different order or
+    a different length of `pis` give a different operation list, whatever label / key / proof. -/
+theorem pi_changes_transcript {label label' : List Nat} {k k' : VKey} {c c' : Nat} {v3 : Bool}
+    {pis pis' : List Nat} {p p' : ProofM} (h : pis.map (· % R) ≠ pis'.map (· % R)) :
+    statementOps label k c v3 pis p ≠ statementOps label' k' c' v3 pis' p' := by
+  intro he
+  have := statementOps_bytes_inj he
+  unfold statementBytes at this
+  simp only [StatementBytes.mk.injEq] at this
+  exact h this.2.2.2.2.1
+
+-- one value changed / order swapped / length changed (values canonical)
+example : ([1, 2, 3] : List Nat).map (· % R) ≠ [1, 5, 3].map (· % R) := by decide +kernel
+example : ([1, 2, 3] : List Nat).map (· % R) ≠ [2, 1, 3].map (· % R) := by decide +kernel
+example : ([1, 2, 3] : List Nat).map (· % R) ≠ [1, 2].map (· % R) := by decide +kernel
+example : ([1, 2, 3] : List Nat).map (· % R) ≠ [1, 2, 3, 0].map (· % R) := by decide +kernel
+
+/-- **changing the label changes the transcript** -/
+theorem label_changes_transcript {label label' : List Nat} {k k' : VKey} {c c' : Nat} {v3 : Bool}
+    {pis pis' : List Nat} {p p' : ProofM} (h : label ≠ label') :
+    statementOps label k c v3 pis p ≠ statementOps label' k' c' v3 pis' p' := by
+  intro he
+  have := statementOps_bytes_inj he
+  unfold statementBytes at this
+  simp only [StatementBytes.mk.injEq] at this
+  exact h this.1
+
+/-- **changing the circuit changes the transcript**: a different `constraints`, a different
+    `vk.n`, or (for decodable keys) a different transcript-bound commitment. -/
+theorem circuit_changes_transcript {label label' : List Nat} {k k' : VKey} {c c' : Nat} {v3 : Bool}
+    {pis pis' : List Nat} {p p' : ProofM} (hk : k.Decodable) (hk' : k'.Decodable)
+    (h : c ≠ c' ∨ k.n ≠ k'.n ∨ k.boundComms v3 ≠ k'.boundComms v3) :
+    statementOps label k c v3 pis p ≠ statementOps label' k' c' v3 pis' p' := by
+  intro he
+  have hb := statementOps_bytes_inj he
+  unfold statementBytes at hb
+  simp only [StatementBytes.mk.injEq] at hb
+  obtain ⟨-, hc, hn, hkc, -⟩ := hb
+  rcases h with h | h | h
+  · exact h hc
+  · exact h hn
+  · apply h
+    cases v3
+    · exact map_toCompressed_inj (fun q hq => hk q (boundComms_false_subset k q hq))
+        (fun q hq => hk' q (boundComms_false_subset k' q hq)) hkc
+    · exact map_toCompressed_inj hk hk' hkc
+
+-- non-vacuity: two decodable keys that differ in one selector commitment
+example : ({ (default : VKey) with ql := G1.gen } : VKey).boundComms false ≠ (default : VKey).boundComms false := by
+  decide
+
+/-- acceptance depends on the version only through the transcript flag and the equation flag -/
+theorem version_enters_through_two_flags (v : VerifierM) (x : Nat) (p : ProofM) (pis : List Nat)
+    (ver : PVersion) :
+    v.verify x p pis ver =
+      verifyGiven v x p pis (verifierChallenges v.label v.vk v.constraints (ver == .v3) pis p) (ver == .v1) :=
+  verify_eq_given v x p pis ver
+
+/-- **version matrix**: (transcript flag `v3`, equation flag `legacy`) per version -/
+theorem version_matrix (v : VerifierM) (x : Nat) (p : ProofM) (pis : List Nat) :
+    v.verify x p pis .v1 =
+      verifyGiven v x p pis (verifierChallenges v.label v.vk v.constraints false pis p) true ∧
+    v.verify x p pis .v2 =
+      verifyGiven v x p pis (verifierChallenges v.label v.vk v.constraints false pis p) false ∧
+    v.verify x p pis .v3 =
+      verifyGiven v x p pis (verifierChallenges v.label v.vk v.constraints true pis p) false :=
+  ⟨verify_eq_given v x p pis .v1, verify_eq_given v x p pis .v2, verify_eq_given v x p pis .v3⟩
+
+/-- V1 and V2 share the transcript (they differ in the equation only); the V3 transcript differs
+    from it exactly in what is absorbed under `"s_sigma_4"` -/
+theorem version_transcripts (label : List Nat) (k : VKey) (c : Nat) (pis : List Nat) (p : ProofM) :
+    (statementOps label k c true pis p = statementOps label k c false pis p ↔
+      k.s4.toCompressed = k.s1.toCompressed) := by
+  constructor
+  · intro h
+    unfold statementOps at h
+    rw [List.append_assoc, List.append_assoc] at h
+    have hb := (List.append_inj h (by rw [baseOps_length, baseOps_length])).1
+    rw [baseOps_eq, baseOps_eq] at hb
+    simp only [List.cons.injEq, TOp.msg.injEq, true_and, and_true, if_true, Bool.false_eq_true, if_false] at hb
+    exact hb
+  · intro h
+    unfold statementOps
+    rw [baseOps_eq, baseOps_eq]
+    simp only [if_true, Bool.false_eq_true, if_false, h]
+
+/-- **the model's `PI(z)` is the sparse barycentric sum** -/
+theorem pi_eval_is_barycentric (d : Domain) (roots pis : List Nat) (z l1 pi : Nat)
+    (h : d.lagrangeAndPi roots pis z = some (l1, pi)) :
+    toF pi = piEvalF (roots.map toF) (pis.map toF) (toF z) (toF (d.evaluateVanishing z)) (toF d.sizeInv) :=
+  lagrangeAndPi_pi d roots pis z l1 pi h
+
+/-- **`PI(z)` is injective in each single public input**: for `z` outside the domain (`zh ≠ 0`,
+    `n⁻¹ ≠ 0`) and off the `j`-th root, changing exactly the `j`-th value changes `PI(z)`. -/
+theorem pi_eval_injective (rs es : List F) (z zh ninv : F) (j : Nat) (hj : j < es.length)
+    (hjr : j < rs.length) (x : F) (hx : x ≠ es[j]) (hden : rs[j] * z - 1 ≠ 0) (hzh : zh ≠ 0)
+    (hn : ninv ≠ 0) : piEvalF rs (es.set j x) z zh ninv ≠ piEvalF rs es z zh ninv :=
+  piEvalF_set_ne rs es z zh ninv j hj hjr x hx hden hzh hn
+
+example : ∃ (rs es : List F) (z zh ninv x : F) (j : Nat) (hj : j < es.length) (hjr : j < rs.length),
+    x ≠ es[j] ∧ rs[j] * z - 1 ≠ 0 ∧ zh ≠ 0 ∧ ninv ≠ 0 :=
+  ⟨[1, 1], [0, 0], 0, 1, 1, 1, 1, by decide, by decide, by simp, by simp, one_ne_zero, one_ne_zero⟩
+
 end Plonk.Props.C04
